@@ -132,7 +132,7 @@ def run(tier, seed, ev):
                         ops += ["R100", "R1"]
                 jobs.append("exec %s %s %s eod - 0 mw%s %s" % (g, f, kind, "" if cls == "extreme" else "b", ",".join(ops)))
                 ev.cls((cls, os.path.basename(f).split("_")[0] if cls != "extreme" else os.path.basename(f), kind))
-        res = TR.run_sharded(rdrv, jobs, sc, "w", timeout=900)
+        res = TR.run_sharded(rdrv, jobs, sc, "w", timeout=900, cpu_limit=40 if tier == "quick" else 900)
         viols, good = TR.validate_all("Trace_Reader", "Trace_Reader_work", res, ev, "C13", xmx="6g")
         for k, f in mcs.items():
             r = f.result()
